@@ -334,6 +334,39 @@ def _metrics(spec, ctx, R):
                 ref = float(np.linalg.norm((yv - xv).ravel()) / np.linalg.norm(xv.ravel()))
                 ctx.check("relerr_value", abs(ev - ref), 1e-6 * ref + 1e-300, site=site, detail={"step": step, "relative_error": ev, "oracle": ref})
             ctx.check("relerr_zero_distance", ev > 0.0, site=site, detail={"relative_error": ev})
+    # RELATIONS between the two arguments whose differences cancel in aggregate although the arrays differ: two entries exchanged, a +d / -d pair
+    # of edits, a permutation / reversal of the reference, a zero-mean perturbation, the mirrored array (sum, mean and every moment of the
+    # difference that is odd vanish; only the squared differences do not)
+    nn = int(np.prod(shape))
+    if nn >= 2:
+        flat = x.ravel()
+        rel = {}
+        i1, i2 = (int(v) for v in rng.choice(nn, size=2, replace=False))
+        y = flat.copy(); y[i1], y[i2] = flat[i2], flat[i1]; rel["two_entries_exchanged"] = y
+        y = flat.copy(); y[i1] += 0.5; y[i2] -= 0.5; rel["plus_minus_pair"] = y
+        y = flat.copy(); y[i1] += 2.0 ** -20; y[i2] -= 2.0 ** -20; rel["plus_minus_pair_small"] = y
+        rel["reversed"] = flat[::-1].copy()
+        rel["permuted"] = flat[rng.permutation(nn)].copy()
+        d = np.round(rng.standard_normal(nn) * 8.0) / 8.0
+        d = d - d[::-1]                                                     # antisymmetric: sums to zero exactly
+        rel["antisymmetric_perturbation"] = flat + d
+        for lab, yv in rel.items():
+            yv = yv.reshape(shape)
+            if not np.any(yv != x):
+                continue
+            ctx.hit("relation:differences_cancel_in_aggregate")
+            mse_r = float(np.mean((yv - x) ** 2))
+            try:
+                pr = Q.psnr(yv.copy(), x.copy())
+                ctx.check("psnr_zero_distance", math.isfinite(pr), site="differ:relation:" + lab, detail={"psnr": pr, "kind": kind})
+                pr1 = Q.psnr(yv.copy(), x.copy(), data_range=1.0)
+                ctx.check("psnr_zero_distance", math.isfinite(pr1), site="differ:relation:" + lab + ":data_range", detail={"psnr": pr1, "kind": kind})
+                if mse_r > 0 and math.isfinite(pr1):
+                    ctx.check("psnr_value", abs(pr1 - 10 * math.log10(1.0 / mse_r)), 1e-6, site="differ:relation:" + lab, detail={"psnr": pr1})
+                er = Q.relative_error(yv.copy(), x.copy())
+                ctx.check("relerr_zero_distance", er > 0.0, site="differ:relation:" + lab, detail={"relative_error": er})
+            except Exception as ex:
+                ctx.check("psnr_zero_distance", False, site="differ:relation:" + lab, detail={"exception": repr(ex)[:200]})
     # PSNR value against the definition on a generic pair
     y = x + rng.standard_normal(shape) * 0.1
     mse = float(np.mean((y - x) ** 2))
